@@ -247,9 +247,21 @@ func (o *Obs) CatMap() map[string]CatObs {
 
 // Behaviour is one emitted TLC state: the history that reached it and its Obs.
 type Behaviour struct {
-	Steps []Step   `json:"steps"`
-	Obs   Obs      `json:"obs"`
-	Jobs  []JobObs `json:"jobs,omitempty"`
+	Steps  []Step          `json:"steps"`
+	Obs    Obs             `json:"obs"`
+	Jobs   []JobObs        `json:"jobs,omitempty"`
+	PreRaw json.RawMessage `json:"pre,omitempty"` // Obs of the state before the last step (crash configurations)
+	Pre    *Obs            `json:"-"`
+}
+
+// DecodePre fills Pre from PreRaw (TLC renders "no previous state" as []).
+func (b *Behaviour) DecodePre() {
+	if b.Pre == nil && len(b.PreRaw) > 0 && b.PreRaw[0] == '{' {
+		o := &Obs{}
+		if json.Unmarshal(b.PreRaw, o) == nil {
+			b.Pre = o
+		}
+	}
 }
 
 // ParseTLCLine extracts the JSON payload of a `<<"TAG", "json">>` line printed by
@@ -292,6 +304,7 @@ func ReadTLC(path string, stride, offset int, fn func(idx int, b *Behaviour) err
 					if e := json.Unmarshal(payload, b); e != nil {
 						return hdr, idx, fmt.Errorf("TRACE line %d: %v", idx, e)
 					}
+					b.DecodePre()
 					if e := fn(idx, b); e != nil {
 						return hdr, idx, e
 					}
